@@ -81,6 +81,9 @@ def unit_reuse(a):
     return pc.unit_reuse(a, st_ast(**BIAS), proj_c07, WHAT, 67)
 
 
+from vlib.common import diff_text  # noqa: E402
+
+
 def check_shared_compiler(case, stats):
     """ONE compiler used by several threads at once on different documents (ids aside, each result == the solo result)"""
     import sys
@@ -114,6 +117,87 @@ def check_shared_compiler(case, stats):
     stats.case(("shared-compiler", case["reps"]), True, sample=case)
     if errors:
         raise Violation(case, "one Compiler shared by 4 threads: document #%r compiled to other steps / tags / names than alone" % (errors[0],))
+    # the same question with the schedule owned by the harness: thread A is held inside its k-th id request (the one shared object the
+    # compiler documents), thread B compiles a whole other document with the same Compiler, A continues.
+    small = [gh.parse(t)[1] for t in (
+        "Feature: one\n  Background:\n    Given bg\n  Scenario: s\n    Given a\n    And b\n    But c\n  Scenario: s2\n    * d\n    And e\n",
+        "@f\nFeature: two\n  @o\n  Scenario Outline: o <x>\n    When <x>\n    And d\n    | <x> |\n  @e\n  Examples:\n    | x |\n    | 1 |\n    | 2 |\n",
+        "Feature: three\n  Rule: r\n    Background:\n      Then rb\n    @s\n    Scenario: in rule\n      And first is a conjunction\n      When w\n      \"\"\"\n      doc\n      \"\"\"\n")]
+    for d in small:
+        d["uri"] = "small.feature"
+    gdocs = small + docs[:6]
+    gsolo = [gh_compile_proj(gh.Compiler(), d) for d in gdocs]
+    for i in range(len(gdocs)):
+        total = _count_ids(gdocs[i])
+        points = list(range(1, min(total, 14) + 1)) + [total // 2, total]
+        for j in range(len(gdocs)):
+            if i == j and i >= 3:
+                continue
+            for k in sorted(set(p for p in points if p >= 1)):
+                ra, rb = _gated_pair(gdocs[i], gdocs[j], k)
+                stats.case(("gated", i, j, k), True)
+                for who, r, want, n in (("held", ra, gsolo[i], i), ("other", rb, gsolo[j], j)):
+                    if isinstance(r, BaseException):
+                        raise Violation(dict(case, gated=[i, j, k]), "one Compiler, thread A held in its id request #%d while thread B compiles another document: the %s thread failed with %r" % (k, who, r))
+                    if r != want:
+                        raise Violation(dict(case, gated=[i, j, k]), "one Compiler, thread A (document #%d) held in its id request #%d while thread B compiles document #%d: the %s thread's pickles differ from compiling its document alone: %s" % (
+                            i, k, j, who, diff_text(r, want, "shared", "alone")))
+
+
+def _count_ids(doc):
+    import json
+
+    class C(gh.IdGenerator):
+        n = 0
+
+        def get_next_id(self):
+            C.n += 1
+            return super().get_next_id()
+    gh.Compiler(C()).compile(json.loads(json.dumps(doc)))
+    return C.n
+
+
+def _gated_pair(da, db, k):
+    import threading
+    inside, bdone = threading.Event(), threading.Event()
+    lock = threading.Lock()
+
+    class Gated(gh.IdGenerator):
+        def __init__(self):
+            super().__init__()
+            self.na = 0
+
+        def get_next_id(self):
+            if threading.current_thread().name == "verif-A":
+                self.na += 1
+                if self.na == k:
+                    inside.set()
+                    bdone.wait(3)
+            with lock:
+                return super().get_next_id()
+    comp = gh.Compiler(Gated())
+    res = {}
+
+    def a():
+        try:
+            res["a"] = gh_compile_proj(comp, da)
+        except BaseException as e:  # noqa
+            res["a"] = e
+        finally:
+            inside.set()
+
+    def b():
+        inside.wait(10)
+        try:
+            res["b"] = gh_compile_proj(comp, db)
+        except BaseException as e:  # noqa
+            res["b"] = e
+        finally:
+            bdone.set()
+    ta = threading.Thread(target=a, name="verif-A", daemon=True)
+    tb = threading.Thread(target=b, name="verif-B", daemon=True)
+    ta.start(); tb.start(); ta.join(60); tb.join(60)
+    return res.get("a", RuntimeError("thread A did not finish")), res.get("b", RuntimeError("thread B did not finish"))
 
 
 def gh_compile_proj(comp, doc):
